@@ -228,3 +228,90 @@ def check_site(P, b, parks, spec):
                 return False, f"after the park at {k.loc} a path returns without re-reading the wake condition (a spurious unpark would be taken for the wake)", wit
         return True, "park only after reading the condition; re-read after every wake", [f"cond {sts[0].loc}"] + [f"park {k.loc}" for k in parks]
     return False, "unknown template", wit
+
+
+# ---------------------------------------------------------------------------
+# publish => notify rows (rule family R2). Each row: bodies (regex on id), the publishing event,
+# the label of the success edge of the publish result (None: unconditional), the notifier that
+# must follow on every path to the function's exit, and exemptions.
+# ---------------------------------------------------------------------------
+def atomic_store_on(path_rx, min_release=True):
+    pr = re.compile(path_rx)
+
+    def f(b, e):
+        if not (e.kind == "call" and e.is_atomic and e.method in ("store", "swap", "fetch_add") and e.args):
+            return False
+        return pr.search(b.path_of_operand(e.args[0])) is not None
+    return f
+
+
+NOTIFY_ROWS = [
+    dict(id="spsc-push", scope=r"^fibre::spsc::", publish=m(r"push", callee="spsc::shared::Ring"), label="Ok", notify=m(r"notify_receivers"),
+         may={r"SpscShared::<T>::write_batch$": "notifies once after the loop when sent > 0; a successful push implies sent > 0"},
+         why="spsc: a pushed item must be followed by notify_receivers (the consumer may be parked)"),
+    dict(id="spsc-pop", scope=r"^fibre::spsc::", publish=m(r"pop", callee="spsc::shared::Ring"), label="Some", notify=m(r"notify_senders"),
+         may={r"SpscShared::<T>::read_batch$": "notifies once after the loop when got > 0",
+              r"Ring<T> as core::ops::drop::Drop>::drop$": "teardown drain: no sender can be parked on a ring being dropped"},
+         why="spsc: a popped item frees space; notify_senders must follow"),
+    dict(id="mpsc-unbounded-publish", scope=r"^fibre::mpsc::unbounded_v3::", publish=m(r"publish", callee="MpscShared"), label=None, notify=m(r"notify_receiver"),
+         may={}, why="mpsc unbounded: chain publish must be followed by notify_receiver"),
+    dict(id="mpmc-unbounded-publish", scope=r"^fibre::mpmc_v2::unbounded::", publish=m(r"publish", callee="UnboundedShared"), label=None, notify=m(r"notify_receivers"),
+         may={}, why="mpmc unbounded: chain publish must be followed by notify_receivers"),
+    dict(id="mpsc-bounded-slot", scope=r"^fibre::mpsc::bounded_v3::shared::Shared::<T>::(write_slot|resolve_run)$", publish=atomic_store_on(r"\.state$"), label=None,
+         notify=m(r"notify_receiver"), may={}, why="mpsc bounded: a slot state store (SET/SKIP) must be followed by notify_receiver"),
+    dict(id="mpsc-bounded-progress", scope=r"^fibre::mpsc::bounded_v3::shared::Shared::<T>::publish_progress$", publish=atomic_store_on(r"\.progress$"), label=None,
+         notify=m(r"notify_senders"), may={}, why="mpsc bounded: published consumer progress must be followed by notify_senders"),
+    dict(id="spmc-consumer-tail", scope=r"^fibre::spmc::ring_buffer::try_recv(_batch)?_internal$", publish=atomic_store_on(r"^consumer_tail_idx$"), label=None,
+         notify=m(r"wake_producer"), may={}, why="spmc: advancing a consumer cursor frees space; wake_producer must follow"),
+    dict(id="spmc-producer-head", scope=r"^fibre::spmc::ring_buffer::SpmcShared::<T>::(try_send_internal|write_batch_unchecked)$", publish=atomic_store_on(r"^self\.head$"), label=None,
+         notify=m(r"drain", callee="Vec::<core::task::wake::Waker>"),
+         may={r"::write_batch_unchecked$": "drains the waker list of each written slot in a loop over 0..written; zero iterations only when nothing was published"},
+         why="spmc: a published head must be followed by draining the slot's waker list"),
+    dict(id="mailbox-deliver", scope=r"^fibre::spmc::topic::mailbox::MailboxProducer::<T>::deliver$", publish=m(r"push_back", path=r"\.buffer$"), label=None,
+         notify=m(r"wake_consumer"), may={}, why="topic mailbox: a delivered message must be followed by wake_consumer"),
+    dict(id="rendezvous-fulfill", scope=r"^fibre::internal::rendezvous::", publish=m(r"fulfill_receiver|fulfill_sender"), label=None,
+         notify=m(r"wake", callee="WakeHandle"), may={r"::disconnect_all$": "collects wake handles and fires them after the lock is released"},
+         why="rendezvous: a fulfilled waiter must be woken on every path"),
+]
+
+
+def check_notify_rows(P):
+    """yield (row, body, publish event, status, detail)"""
+    from rules import cachelib, common
+    out = []
+    for row in NOTIFY_ROWS:
+        srx = re.compile(row["scope"])
+        n = 0
+        for b in P.bodies.values():
+            if not srx.search(b.id) or not common.in_scope(b.id) or "::tests::" in b.id or "::test_" in b.id:
+                continue
+            pubs = [e for e in b.events if row["publish"](b, e)]
+            if not pubs:
+                continue
+            nots = [e for e in b.events if row["notify"](b, e)]
+            may = None
+            for rx, why in row["may"].items():
+                if re.search(rx, b.id):
+                    may = why
+            for p in pubs:
+                n += 1
+                if may is not None:
+                    if "teardown" in may or "no sender" in may:
+                        out.append((row, b, p, "holds", "exempt: " + may, False))
+                        continue
+                    ok = any(x.pos in b.pos_reach_set(p.pos) for x in nots)
+                    out.append((row, b, p, "holds" if ok else "violated", ("may-follow: " + may) if ok else f"no {row['id']} notifier reachable after the publish at {p.loc}", True))
+                    continue
+                starts = [p.pos]
+                strict = True
+                if row["label"]:
+                    es = cachelib.result_switch_edges(b, p, row["label"])
+                    if es:
+                        starts = [(t, 0) for _, t in es]
+                        strict = False
+                ok = bool(nots) and cachelib.all_paths_pass(b, starts, [x.pos for x in nots], strict=strict)
+                out.append((row, b, p, "holds" if ok else "violated",
+                            f"notifier at {nots[0].loc} follows on every path" if ok else f"a path from the publish at {p.loc} reaches the exit without the notifier ({row['why']})", True))
+        if n == 0:
+            out.append((row, None, None, "unclassified", f"row {row['id']} matched no publish site (renamed?)", True))
+    return out
